@@ -48,7 +48,7 @@ def main():
                        "level_note": c.get("LEVEL_NOTE", "; ".join(c.get("ASSUMPTIONS", []))[:1500]),
                        "technique": c.get("TECHNIQUE", TECH.get(p, _DED + "; " + _BND))})
     man = {"version": 1, "setup_cmd": "./setup.sh",
-           "hooks": {"guard": "GROUPBY_LIB_VERIF", "enable": "no source hook is needed: checks import /repo's working tree as it is (editable install) and attach sidecar contracts from outside; GROUPBY_LIB_VERIF=1 is exported by the harness but read by nothing in /repo",
+           "hooks": {"guard": "GROUPBY_LIB_VERIF", "enable": "no source hook is needed: checks import /repo's working tree as it is (editable install) and attach sidecar contracts from outside; GROUPBY_LIB_VERIF=1 is exported by the harness but read by nothing in /repo. Size-dependent strategies are reached at small sizes from the harness, for the duration of one case, by setting the module global core.THRESHOLD_FOR_CHUNKED_FACTORIZE, by overriding the read-only property GroupBy._max_threads_for_numba, by passing n_threads= to the array-level functions and by forcing the completion order of the tasks handed to util.parallel_map (plus real-size cases of 1e6 rows)",
                      "baseline_off_cmd": "cd /repo && /venv/bin/python -m pytest -ra -q -p no:cacheprovider --timeout=900 --continue-on-collection-errors", "source_commits": [], "add_only": True},
            "engines": [{"name": "pyvc", "path": "/verif/pyvc", "serves_properties": [c["property_id"] for c in checks if c["engine"].startswith("pyvc")],
                         "kind_free_text": "own verification-condition generator: ast of the real kernels (numba nopython semantics) + sidecar contracts -> SMT-LIB, discharged by z3 5.1 and cvc5 1.0.3; L lemmas by manual induction"},
